@@ -67,7 +67,9 @@ class LookInterp(LinInterp, Interp):
 
 
 def check_lookahead(prog, rep):
-    fs = [f for f in prog.funcs.values() if f.name == 'operator()' and f.body is not None and FUND in f.id
+    # the validator of the from_chars result: a lambda inside the parser or a function extracted from it - any function of the header that
+    # takes the from_chars_result
+    fs = [f for f in prog.funcs.values() if f.body is not None and (FUND in f.id or f.relfile.endswith('convert_fundamental.h'))
           and any('from_chars_result' in f.type(p) for p in f.params if 't' in p)]
     seen = set()
     for f in sorted(fs, key=lambda g: g.id):
